@@ -2,6 +2,7 @@
 import Frugal.Proofs.DecodeSafe
 import Frugal.Proofs.SkipCorrect
 import Frugal.Proofs.DecodeSound2
+import Frugal.Proofs.DecodeErrors
 import Frugal.Props.Instances
 namespace Frugal.C05
 open Frugal
@@ -91,6 +92,85 @@ theorem skipper_sound (fuel t : Nat) (b : Bytes) (n : Nat)
     (h : skipType Generated.params fuel t b = .ok n) (hn : n ≤ b.length) :
     ∃ tv, wf tv = true ∧ tv.tag = t ∧ b = ser tv ++ b.drop n :=
   skipType_sound Instances.params_valid fuel t b n h hn
+
+/-- a corrupted length or count cannot trigger a large allocation: in `decodeType` every allocation
+    whose size comes from the wire (`d.Malloc(l…)`, `reflect.MakeMapWithSize(t.RT, l)`; 6 sites) comes
+    after the size check of its case clause (regenerated fact about statement order) … -/
+theorem allocations_follow_size_checks : Generated.facts.allocationDiscipline = true :=
+  Instances.facts_allocationDiscipline
+
+/-- … and those checks, in the decoder as written, reject every count that the remaining bytes
+    cannot hold, before the element loop: lists and sets, -/
+theorem list_count_exceeding_input_is_error (S : Schema) (total fuel : Nat) (s : Bool) (et : Ty)
+    (b r r1 : Bytes) (tp l : Nat) (dest : Val)
+    (hf : Generated.params.fixedSize (Ty.list s et).tt = 0)
+    (h8 : rd8 b = some (tp, r)) (h32 : rd32 r = some (l, r1))
+    (hlen : ¬ b.length < Generated.params.listHeaderLen)
+    (hneg : ¬ l ≥ 2147483648) (hty : et.wire = tp) (hl0 : l ≠ 0)
+    (hper : Generated.params.minWireOf et.wire ≠ 0)
+    (hbig : l > r1.length / Generated.params.minWireOf et.wire) :
+    decodeType Generated.params S total (fuel + 1) (.list s et) b dest = .err .sizeLimit :=
+  list_count_exceeds _ S total fuel s et b r r1 tp l dest hf h8 h32 hlen hneg hty hl0 hper hbig
+
+/-- maps, -/
+theorem map_count_exceeding_input_is_error (S : Schema) (total fuel : Nat) (kt vt : Ty)
+    (b r r1 r2 : Bytes) (t0 t1 l : Nat) (dest : Val)
+    (hf : Generated.params.fixedSize (Ty.map kt vt).tt = 0)
+    (h8a : rd8 b = some (t0, r)) (h8b : rd8 r = some (t1, r1)) (h32 : rd32 r1 = some (l, r2))
+    (hlen : ¬ b.length < Generated.params.mapHeaderLen) (hneg : ¬ l ≥ 2147483648)
+    (hk : t0 = kt.wire) (hv : t1 = vt.wire)
+    (hper : Generated.params.minWireOf kt.wire + Generated.params.minWireOf vt.wire ≠ 0)
+    (hbig : l > r2.length / (Generated.params.minWireOf kt.wire + Generated.params.minWireOf vt.wire)) :
+    decodeType Generated.params S total (fuel + 1) (.map kt vt) b dest = .err .sizeLimit :=
+  map_count_exceeds _ S total fuel kt vt b r r1 r2 t0 t1 l dest hf h8a h8b h32 hlen hneg hk hv hper hbig
+
+/-- strings and binaries -/
+theorem string_length_exceeding_input_is_error (total : Nat) (isBin nocopy : Bool) (b r : Bytes) (l : Nat)
+    (h32 : rd32 b = some (l, r)) (hneg : ¬ l ≥ 2147483648) (hbig : l > r.length) :
+    decodeStr isBin nocopy total b = .err .sizeLimit :=
+  str_length_exceeds total isBin nocopy b r l h32 hneg hbig
+
+/-- negative lengths and counts are errors -/
+theorem negative_sizes_are_errors (S : Schema) (total fuel : Nat) :
+    (∀ (isBin nocopy : Bool) (b r : Bytes) (l : Nat), rd32 b = some (l, r) → l ≥ 2147483648 →
+      decodeStr isBin nocopy total b = .err .negative) ∧
+    (∀ (s : Bool) (et : Ty) (b r r1 : Bytes) (tp l : Nat) (dest : Val),
+      Generated.params.fixedSize (Ty.list s et).tt = 0 → rd8 b = some (tp, r) → rd32 r = some (l, r1) →
+      ¬ b.length < Generated.params.listHeaderLen → l ≥ 2147483648 →
+      decodeType Generated.params S total (fuel + 1) (.list s et) b dest = .err .negative) ∧
+    (∀ (kt vt : Ty) (b r r1 r2 : Bytes) (t0 t1 l : Nat) (dest : Val),
+      Generated.params.fixedSize (Ty.map kt vt).tt = 0 → rd8 b = some (t0, r) → rd8 r = some (t1, r1) →
+      rd32 r1 = some (l, r2) → ¬ b.length < Generated.params.mapHeaderLen → l ≥ 2147483648 →
+      decodeType Generated.params S total (fuel + 1) (.map kt vt) b dest = .err .negative) :=
+  ⟨fun isBin nocopy b r l h1 h2 => str_negative_length total isBin nocopy b r l h1 h2,
+   fun s et b r r1 tp l dest hf h8 h32 hlen hneg =>
+     list_negative_count _ S total fuel s et b r r1 tp l dest hf h8 h32 hlen hneg,
+   fun kt vt b r r1 r2 t0 t1 l dest hf h8a h8b h32 hlen hneg =>
+     map_negative_count _ S total fuel kt vt b r r1 r2 t0 t1 l dest hf h8a h8b h32 hlen hneg⟩
+
+/-- mismatching element / key / value type codes are errors -/
+theorem mismatching_codes_are_errors (S : Schema) (total fuel : Nat) :
+    (∀ (s : Bool) (et : Ty) (b r r1 : Bytes) (tp l : Nat) (dest : Val),
+      Generated.params.fixedSize (Ty.list s et).tt = 0 → rd8 b = some (tp, r) → rd32 r = some (l, r1) →
+      ¬ b.length < Generated.params.listHeaderLen → ¬ l ≥ 2147483648 → et.wire ≠ tp →
+      decodeType Generated.params S total (fuel + 1) (.list s et) b dest = .err .typeMismatch) ∧
+    (∀ (kt vt : Ty) (b r r1 r2 : Bytes) (t0 t1 l : Nat) (dest : Val),
+      Generated.params.fixedSize (Ty.map kt vt).tt = 0 → rd8 b = some (t0, r) → rd8 r = some (t1, r1) →
+      rd32 r1 = some (l, r2) → ¬ b.length < Generated.params.mapHeaderLen → ¬ l ≥ 2147483648 →
+      (t0 ≠ kt.wire ∨ t1 ≠ vt.wire) →
+      decodeType Generated.params S total (fuel + 1) (.map kt vt) b dest = .err .typeMismatch) :=
+  ⟨fun s et b r r1 tp l dest hf h8 h32 hlen hneg hty =>
+     list_type_mismatch _ S total fuel s et b r r1 tp l dest hf h8 h32 hlen hneg hty,
+   fun kt vt b r r1 r2 t0 t1 l dest hf h8a h8b h32 hlen hneg hty =>
+     map_type_mismatch _ S total fuel kt vt b r r1 r2 t0 t1 l dest hf h8a h8b h32 hlen hneg hty⟩
+
+/-- truncated headers are errors -/
+theorem truncated_headers_are_errors (S : Schema) (total fuel : Nat) (s : Bool) (et : Ty) (b : Bytes)
+    (dest : Val) (hf : Generated.params.fixedSize (Ty.list s et).tt = 0) (hshort : b.length < 5) :
+    decodeType Generated.params S total (fuel + 1) (.list s et) b dest = .err .short ∧
+    (∀ (isBin nocopy : Bool) (b' : Bytes), rd32 b' = none → decodeStr isBin nocopy total b' = .err .short) :=
+  ⟨list_truncated_header _ S total fuel s et b dest hf hshort,
+   fun isBin nocopy b' h => str_truncated_length total isBin nocopy b' h⟩
 
 /-- witness that the `panic` outcome is not vacuous in the model: an unguarded fixed-size read of a
     short buffer is a bounds panic (this is what the regenerated guards exclude) -/
